@@ -2,6 +2,7 @@ import RsomeV.Drv.LpDual
 import RsomeV.Drv.ConeDual
 import RsomeV.Drv.Robust
 import RsomeV.Drv.Partition
+import RsomeV.Drv.Curv
 open Lean
 namespace RsomeV.Drv
 /-- every operation of the line protocol -/
@@ -15,5 +16,7 @@ def dispatch (op : String) (j : Json) : Except String Json :=
   | "rule_cols" => opRuleCols j
   | "aff_seq" => opAffSeq j
   | "rule_lin" => opRuleLin j
+  | "curv_chain" => opCurvChain j
+  | "pw_chain" => opPwChain j
   | _ => throw s!"unknown op {op}"
 end RsomeV.Drv
